@@ -319,11 +319,24 @@ def run(ctx: Any, prog: Program) -> None:
     sv_loop_vars = {l.target.id for l in walk_no_nested(sv) if isinstance(l, ast.For) and isinstance(l.target, ast.Name)}
     hdr_fmt = fold_consts['HEADER_LUMP']
     n_slots = 4
+    # `header = (a, b, c, d)` in each branch, then `defer.set_data(lump_name, *header)`: every such tuple is a header as written
+    hdr_sites: List[Tuple[ast.AST, List[ast.AST]]] = []
     for n in walk_no_nested(sv):
         if isinstance(n, ast.Call) and dotted(n.func) == 'defer.set_data' and len(n.args) == 5 and isinstance(n.args[0], ast.Name) and n.args[0].id in sv_loop_vars:
-            roles = [role(a) for a in n.args[1:]]
-            p = bsp.parents.get(bsp.parents.get(n))
+            hdr_sites.append((n, list(n.args[1:])))
+        if isinstance(n, ast.Call) and dotted(n.func) == 'defer.set_data' and len(n.args) == 2 and isinstance(n.args[0], ast.Name) and n.args[0].id in sv_loop_vars \
+                and isinstance(n.args[1], ast.Starred) and isinstance(n.args[1].value, ast.Name):
+            for a_ in walk_no_nested(sv):
+                if isinstance(a_, ast.Assign) and any(dotted(t_) == n.args[1].value.id for t_ in a_.targets) and isinstance(a_.value, ast.Tuple) and len(a_.value.elts) == 4 and a_.lineno < n.lineno:
+                    # only the definitions that can reach this call: same enclosing loop body
+                    hdr_sites.append((a_, list(a_.value.elts)))
+    for n, hdr_args in hdr_sites:
+        if True:
+            roles = [role(a) for a in hdr_args]
+            p = bsp.parents.get(n)
             cur = n
+            if isinstance(p, ast.Expr):
+                cur, p = p, bsp.parents.get(p)
             is_l4d2 = None
             while p is not None and p is not sv:
                 if isinstance(p, ast.If) and 'L4D2' in U(p.test):
@@ -488,8 +501,12 @@ def run(ctx: Any, prog: Program) -> None:
                           func='BSP.save', text='PAKFILE never compressed')
             else:
                 ctx.shape('C10.B5', False, bsp, guard, 'exclusion of the pakfile lump not recognised', func='BSP.save', text='PAKFILE never compressed')
-            fcc = [n for n in guard.body if isinstance(n, ast.Assign) and 'fourcc' in U(n.targets[0])]
-            fz = [n for n in guard.orelse if isinstance(n, ast.Assign) and 'fourcc' in U(n.targets[0])]
+            # the fourCC local: assigned in both arms, and not the data that is compressed/written (that one is assigned from compress_lzma / <obj>.data)
+            both_ = {dotted(a_.targets[0]) for a_ in guard.body if isinstance(a_, ast.Assign)} & {dotted(a_.targets[0]) for a_ in guard.orelse if isinstance(a_, ast.Assign)}
+            data_ = {dotted(a_.targets[0]) for a_ in guard.body if isinstance(a_, ast.Assign) and isinstance(a_.value, ast.Call) and dotted(a_.value.func) == 'compress_lzma'}
+            fcc_names = both_ - data_ - {None}
+            fcc = [n for n in guard.body if isinstance(n, ast.Assign) and dotted(n.targets[0]) in fcc_names]
+            fz = [n for n in guard.orelse if isinstance(n, ast.Assign) and dotted(n.targets[0]) in fcc_names]
             if len(fcc) != 1 or len(fz) != 1:
                 ctx.shape('C10.B5', False, bsp, guard, 'fourCC assignments not found in both branches', func='BSP.save', text='fourCC = uncompressed length / 0')
             elif isinstance(fcc[0].value, ast.Constant) or not (isinstance(fz[0].value, ast.Constant) and fz[0].value.value == 0):
